@@ -26,6 +26,9 @@ ASSUMPTIONS = ['reference tokenizer mc/reftok.py (regular expression ESC [ [^@-~
                'inputs whose parameter bytes lie outside 0x30-0x3F are judged on the losslessness clauses only']
 
 
+TOKS = ['a', 'bc', '\x1b[m', '\x1b[1;2H', '\x1b[2J', '\x1b[', '\x1b', '\x1b[31']
+
+
 def maxlen(tier):
     return 6 if tier == 'quick' else 7
 
@@ -40,6 +43,13 @@ def tasks(tier, seed):
     for k in range(4):
         out.append({'kind': 'long', 'first': k, 'n': 6 if tier == 'quick' else 7})
     # the wider alphabet (with @, ~, DEL) one symbol shorter; only strings that use one of the extra symbols
+    # token level: whole sequences and text pieces as symbols - many removal points in one string (the character tree
+    # reaches two)
+    for a in range(len(TOKS)):
+        out.append({'kind': 'toks', 'first': a, 'n': 6 if tier == 'quick' else 7})
+    # ... and deeper over three tokens (text, an SGR sequence, a non-SGR sequence): up to nine / eleven pieces
+    for a in range(3):
+        out.append({'kind': 'toks3', 'first': a, 'n': 9 if tier == 'quick' else 11})
     m = len(SYMS) + len(EXTRA)
     for a in range(m):
         for b in range(m):
@@ -144,6 +154,11 @@ def run_task(task, acc):
         core = [S[0], S[1], S[5], S[2]]          # ESC [ m digit
         pre = [S[2] * 300, S[8] * 257 + S[0] + S[1] + S[5], S[7] * 1000]
         strings = (p_ + core[task['first']] + ''.join(t) for p_ in pre for k in range(0, task['n']) for t in itertools.product(core, repeat=k))
+    elif task['kind'] == 'toks':
+        strings = (TOKS[task['first']] + ''.join(t) for k in range(0, task['n']) for t in itertools.product(TOKS, repeat=k))
+    elif task['kind'] == 'toks3':
+        T3 = [TOKS[0], TOKS[2], TOKS[3]]
+        strings = (T3[task['first']] + ''.join(t) for k in range(0, task['n']) for t in itertools.product(T3, repeat=k))
     elif task['kind'] == 'short':
         strings = ['']
         for k in (1,):
